@@ -426,6 +426,19 @@ package larking
 //@      && (forall x :: {at(v.toks, x).typ} off(v.toks) <= x && x < off(v.toks) + len(v.toks) - 1 ==>
 //@            (IsSeg(at(v.toks, x).typ) ==> at(v.toks, x+1).typ == tokenSlash) && (at(v.toks, x).typ == tokenSlash ==> IsSeg(at(v.toks, x+1).typ)))
 
+// PatWf: the same shape for a token slice that is about to become a variable's pattern;
+// PatPre: a prefix of such a pattern while addRule collects it (s is the automaton state
+// before the next template token: 7 a segment is due, 8 a slash or the closing brace).
+//@ spec PatWf(toks) = len(toks) >= 1 && IsSeg(at(toks, off(toks)).typ) && IsSeg(at(toks, off(toks) + len(toks) - 1).typ)
+//@      && (forall x :: {at(toks, x).typ} off(toks) <= x && x < off(toks) + len(toks) ==> IsSeg(at(toks, x).typ) || at(toks, x).typ == tokenSlash)
+//@      && (forall x :: {at(toks, x).typ} off(toks) <= x && x < off(toks) + len(toks) - 1 ==>
+//@            (IsSeg(at(toks, x).typ) ==> at(toks, x+1).typ == tokenSlash) && (at(toks, x).typ == tokenSlash ==> IsSeg(at(toks, x+1).typ)))
+//@ spec PatPre(toks, s) = (len(toks) == 0 ==> s == 7)
+//@      && (len(toks) > 0 ==> IsSeg(at(toks, off(toks)).typ) && (s == 8 <==> IsSeg(at(toks, off(toks) + len(toks) - 1).typ)) && (s == 7 <==> at(toks, off(toks) + len(toks) - 1).typ == tokenSlash))
+//@      && (forall x :: {at(toks, x).typ} off(toks) <= x && x < off(toks) + len(toks) ==> IsSeg(at(toks, x).typ) || at(toks, x).typ == tokenSlash)
+//@      && (forall x :: {at(toks, x).typ} off(toks) <= x && x < off(toks) + len(toks) - 1 ==>
+//@            (IsSeg(at(toks, x).typ) ==> at(toks, x+1).typ == tokenSlash) && (at(toks, x).typ == tokenSlash ==> IsSeg(at(toks, x+1).typ)))
+
 // variable.index returns how many of toks (which start at a path segment) the
 // pattern covers, or -1. The step clauses are the google.api.http semantics of
 // one pattern token: "/" one slash, LITERAL one equal segment, "*" exactly one
@@ -714,8 +727,10 @@ package larking
 //@   ensures [fresh-node C12] result != nil && isfresh(result) && result.segments != nil && result.methods != nil && isfresh(result.segments) && isfresh(result.methods) && result.segments != result.methods
 //@   ensures [empty-node C16] maplen(result.segments) == 0 && maplen(result.methods) == 0 && len(result.variables) == 0 && result.methodAll == nil
 //@   ensures [no-children C16] (forall k :: !maphas(result.segments, k)) && (forall k :: !maphas(result.methods, k))
-//@ func (*path).addVariable serves C02
+//@ func (*path).addVariable serves C02 C01 C16
 //@   requires p != nil && SortedVars(p.variables)
+//@   requires [pattern] PatWf(toks)
+//@   ensures [new-variable-well-formed C01 C02] at "return v" #2 VarWf(v#2) && v#2.next != nil
 //@   modifies F$path.variables, E$P_variable
 //@   ensures [sorted C02] SortedVars(p.variables)
 //@   ensures [non-nil] result != nil
@@ -948,7 +963,7 @@ package larking
 // singular message field (a registered method's selectors never panic later).
 //@ spec AllSingular(fds) = forall y :: {at(fds, y)} off(fds) <= y && y < off(fds) + len(fds) ==> at(fds, y) != nil && SingularMsg(at(fds, y))
 // (recursion for additional bindings: the frame is assumed at the call site)
-//@ func (*path).addRule serves C16 C11 C04 trusted partial ghost index slice inv.init inv.keep pre[(*path).addRule$
+//@ func (*path).addRule serves C16 C11 C04 C01 trusted partial ghost index slice inv.init inv.keep pre[(*path).addRule$ pre[(*path).addVariable#1.pattern pre[(*path).addVariable#2.pattern
 //@   requires p != nil && rule != nil && desc != nil
 //@   modifies M$, F$path., F$variable., F$method., E$P_variable
 //@   loop 4 invariant -1 <= rangeindex && rangeindex < len(rule.AdditionalBindings)
@@ -964,7 +979,7 @@ package larking
 //@   assert at "nxt = next()" [walk C16] St(l, i + 1) == 5 && i + 1 < l.len
 //@   assert at "switch nxt.typ {" [walk C16] St(l, i + 1) != 0
 //@   assert at "for nxt := next(); nxt.typ != tokenVariableEnd; nxt = next() {" [walk C16] St(l, i + 1) == 7 && i + 1 < l.len
-//@   loop 3 invariant W(l) && 0 <= i && i < l.len && nxt#2.typ == l.toks[i].typ && (St(l, i) == 7 || St(l, i) == 8) && base(vars) >= 0
+//@   loop 3 invariant W(l) && 0 <= i && i < l.len && nxt#2.typ == l.toks[i].typ && (St(l, i) == 7 || St(l, i) == 8) && base(vars) >= 0 && PatPre(vars, St(l, i))
 //@   assert at "vars = append(vars, nxt)" [walk C16] (St(l, i + 1) == 7 || St(l, i + 1) == 8) && i + 1 < l.len
 //@   assert at "fds := fieldPath(fieldDescs, keys...)" [walk C16] St(l, i + 1) == 3 && i + 1 < l.len
 //@   assert at "switch tok.typ {" [walk C16] St(l, i) == 3 && St(l, i + 1) != 0
